@@ -1,5 +1,7 @@
 //! Command line argument parsing and initial build invocation.
 
+#[cfg(n2_verif)]
+use crate::verif::shim as std;
 use crate::{
     load, progress::Progress, progress_dumb::DumbConsoleProgress,
     progress_fancy::FancyConsoleProgress, terminal, trace, work,
@@ -27,6 +29,10 @@ fn build(args: BuildArgs) -> anyhow::Result<Option<usize>> {
         &dumb_console
     };
 
+    #[cfg(n2_verif)]
+    let tee = crate::verif::Tee(progress);
+    #[cfg(n2_verif)]
+    let progress: &dyn Progress = &tee;
     let build_filename = args.build_filename.as_deref().unwrap_or("build.ninja");
     let mut state = trace::scope("load::read", || load::read(build_filename))?;
     let mut work = work::Work::new(
@@ -161,6 +167,8 @@ fn parse_args() -> anyhow::Result<Result<BuildArgs, i32>> {
 
     use lexopt::prelude::*;
     let mut parser = lexopt::Parser::from_env();
+    #[cfg(n2_verif)]
+    let mut parser = crate::verif::args(parser);
     while let Some(arg) = parser.next()? {
         match arg {
             Short('h') | Long("help") => {
